@@ -166,9 +166,6 @@ Record recvw := mkRW {
   rbuf : bytes; rmsgs : N; rlevel : N; rack_level : N; rack_seq : N; rrem : N }.
 Definition recvw_new : recvw := mkRW [] 0 0 0 255 0.
 
-(** [SendWindow::is_full] *)
-Definition sw_is_full (w : sendw) (r : recvw) : bool :=
-  (slevel w =? 0) || ((slevel w =? 1) && (rack_level r =? 0)).
 
 (** [RingBuf::push]: oldest bytes are dropped when the data does not fit *)
 Definition rb_push (buf data : bytes) : bytes :=
@@ -230,6 +227,11 @@ Definition check_handshake_integrity (h : hdr) : res unit :=
 Definition rw_pending_ack (r : recvw) : option N :=
   if (0 <? rack_level r) && (rmsgs r =? 0) then Some (rack_seq r) else None.
 
+(** [SendWindow::is_full] (repaired: the last slot is kept for a segment that
+    really carries the ACK, i.e. [pending_ack] is Some) *)
+Definition sw_is_full (w : sendw) (r : recvw) : bool :=
+  (slevel w =? 0) || ((slevel w =? 1) && negb (is_some (rw_pending_ack r))).
+
 (** [RecvWindow::post_send] *)
 Definition rw_post_send (r : recvw) : res recvw :=
   if is_some (rw_pending_ack r) then
@@ -285,11 +287,17 @@ Definition set_relaxed (s : session) (b : bool) : session :=
 
 Definition is_established (s : session) : bool := negb (address s =? 0).
 
-(** [Session::setup] (repaired: both windows start clean) *)
-Definition setup (s : session) (addr ver m w : N) : session :=
+(** [Session::setup] (repaired: both windows start clean; the initiator owes an
+    ACK for the handshake response, the responder's sequence number 0) *)
+Definition setup_state (s : session) (addr ver m w : N) : session :=
   mkSess (initiator s) addr ver m w (negb (initiator s))
-         (mkRW [] 0 w 0 (if initiator s then 0 else 255) 0)
+         (if initiator s then mkRW [] 0 (w - 1) 1 0 0 else mkRW [] 0 w 0 255 0)
          (mkSW w w 255) (relaxed s).
+
+Definition setup (s : session) (addr ver m w : N) : res session :=
+  if initiator s then
+    let? _ := csub P_RECV_LEVEL w 1 in Ok (setup_state s addr ver m w)
+  else Ok (setup_state s addr ver m w).
 
 (** [Session::initial_window_size] *)
 Definition initial_window_size (m : N) : res N :=
@@ -318,7 +326,7 @@ Definition process_rx_handshake_req (s : session) (gatt : option N) (addr : N)
   let? m := csub P_MTU_HDR m GATT_HDR in
   let? iw := initial_window_size m in
   let w := N.min (q_ws req) iw in
-  Ok (setup s addr ver m w).
+  setup s addr ver m w.
 
 (** [Session::process_rx_handshake_resp] (repaired: segment size and window
     must be usable) *)
@@ -329,7 +337,7 @@ Definition process_rx_handshake_resp (s : session) (addr : N)
   if (p_mtu resp <? MIN_MTU - GATT_HDR) || (MAX_MTU - GATT_HDR <? p_mtu resp)
      || (p_ws resp =? 0)
   then Err E_INVALID_DATA
-  else Ok (setup s addr (p_version resp) (p_mtu resp) (p_ws resp)).
+  else setup s addr (p_version resp) (p_mtu resp) (p_ws resp).
 
 (** [Session::process_rx_data] (repaired: the ACK is validated first) *)
 Definition process_rx_data (s : session) (h : hdr) (payload : bytes) : res session :=
